@@ -43,7 +43,7 @@ func runC16(c *core.Ctx) {
 				return
 			}
 			g := core.Callee(&call.Call)
-			if g == nil || !p.InRepo(g) || len(call.Call.Args) != 3 {
+			if g == nil || !p.InRepo(g) || !c16isImplCall(call) {
 				return
 			}
 			dup := false
@@ -55,13 +55,20 @@ func runC16(c *core.Ctx) {
 			if !dup {
 				impls = append(impls, g)
 			}
-			// worker argument
-			w := call.Call.Args[2]
-			if !c16workerOK(pm, w) {
-				ok, detail = false, "the worker count passed to "+g.Name()+" is not len(list) lowered only when 0 < FixedPool < len(list)"
+			if len(call.Call.Args) == 3 {
+				// worker argument
+				w := call.Call.Args[2]
+				if !c16workerOK(pm, w) {
+					ok, detail = false, "the worker count passed to "+g.Name()+" is not len(list) lowered only when 0 < FixedPool < len(list)"
+				}
+				if call.Call.Args[0] != ssa.Value(pm.Params[0]) || call.Call.Args[1] != ssa.Value(pm.Params[2]) {
+					ok, detail = false, "f/list are not passed through unchanged"
+				}
+				return
 			}
-			if call.Call.Args[0] != ssa.Value(pm.Params[0]) || call.Call.Args[1] != ssa.Value(pm.Params[2]) {
-				ok, detail = false, "f/list are not passed through unchanged"
+			// (f, list, worker) bundled into one struct value built in PMap: every store into its fields is judged
+			if why := c16bundleOK(pm, call.Call.Args[0]); why != "" {
+				ok, detail = false, why
 			}
 		})
 		if len(impls) != 2 {
@@ -75,7 +82,7 @@ func runC16(c *core.Ctx) {
 				return
 			}
 			g := core.Callee(&call.Call)
-			if g == nil || !p.InRepo(g) || len(call.Call.Args) != 3 {
+			if g == nil || !p.InRepo(g) || !c16isImplCall(call) {
 				return
 			}
 			if c16carriesIndex(g) {
@@ -184,7 +191,11 @@ func c16isWorkerLen(pm *ssa.Function, v ssa.Value) bool {
 func c16impl(c *core.Ctx, im *ssa.Function) {
 	p := c.P
 	name := im.Name()
-	fParam, list, worker := im.Params[0], im.Params[1], im.Params[2]
+	fParam, list, worker, okRoles := c16roles(im)
+	if !okRoles {
+		c.Unknown("R2", name, p.Pos(im.Pos()), "the implementation does not take (f, list, worker), separately or bundled in one struct")
+		return
+	}
 	// classify closures
 	var producer, workerFn, closer *ssa.Function
 	// goroutine bodies started by the implementation: closures, or named helpers (their parameters are
@@ -279,7 +290,7 @@ func c16impl(c *core.Ctx, im *ssa.Function) {
 	// for it when every other return case of the helper is excluded by 0 <= worker <= len(list), which PMap guarantees (R4)
 	isWorker := func(v ssa.Value) bool {
 		v = ipv(v)
-		if v == ssa.Value(worker) {
+		if c16same(v, worker) {
 			return true
 		}
 		call, isC := v.(*ssa.Call)
@@ -292,10 +303,10 @@ func c16impl(c *core.Ctx, im *ssa.Function) {
 		}
 		wIdx, lIdx := -1, -1
 		for i, a := range call.Call.Args {
-			if ipv(a) == ssa.Value(worker) {
+			if c16same(ipv(a), worker) {
 				wIdx = i
 			}
-			if lc, isL := core.Resolve(a).(*ssa.Call); isL && core.IsBuiltin(&lc.Call, "len") && ipv(lc.Call.Args[0]) == ssa.Value(list) {
+			if lc, isL := core.Resolve(a).(*ssa.Call); isL && core.IsBuiltin(&lc.Call, "len") && c16same(ipv(lc.Call.Args[0]), list) {
 				lIdx = i
 			}
 		}
@@ -445,7 +456,7 @@ func c16impl(c *core.Ctx, im *ssa.Function) {
 			// the loop ranges over the captured list
 			overList := false
 			core.Instrs(producer, func(ins ssa.Instruction) {
-				if ia, isIA := ins.(*ssa.IndexAddr); isIA && binding(producer, ia.X) == ssa.Value(list) && ascendingIndex(ia.Index) {
+				if ia, isIA := ins.(*ssa.IndexAddr); isIA && c16same(binding(producer, ia.X), list) && ascendingIndex(ia.Index) {
 					overList = true
 				}
 			})
@@ -473,7 +484,7 @@ func c16impl(c *core.Ctx, im *ssa.Function) {
 		})
 		ok, detail := false, "worker does not call f and send once per element"
 		if fcall != nil && resultSend != nil {
-			isF := binding(workerFn, fcall.Call.Value) == ssa.Value(fParam)
+			isF := c16same(binding(workerFn, fcall.Call.Value), fParam)
 			start := fcall.Block()
 			fmin, fmax := core.PathCountIter(start, nil, func(ins ssa.Instruction) int {
 				if ins == ssa.Instruction(fcall) {
@@ -732,7 +743,7 @@ func c16keyField(t types.Type) (key, val int, ok bool) {
 }
 
 // c16orderedStruct is the index round trip for {index, value} carriers.
-func c16orderedStruct(p *core.Prog, im, producer, workerFn *ssa.Function, list, fParam *ssa.Parameter, binding func(*ssa.Function, ssa.Value) ssa.Value) (bool, string) {
+func c16orderedStruct(p *core.Prog, im, producer, workerFn *ssa.Function, list, fParam ssa.Value, binding func(*ssa.Function, ssa.Value) ssa.Value) (bool, string) {
 	received := func(v ssa.Value) bool {
 		v = core.Resolve(v)
 		if ex, isE := v.(*ssa.Extract); isE && ex.Index == 0 {
@@ -754,7 +765,7 @@ func c16orderedStruct(p *core.Prog, im, producer, workerFn *ssa.Function, list, 
 			return
 		}
 		if ld, isLd := core.Resolve(lit[v]).(*ssa.UnOp); isLd {
-			if ia, isIA := ld.X.(*ssa.IndexAddr); isIA && ia.Index == core.Resolve(lit[k]) && ascendingIndex(ia.Index) && binding(producer, ia.X) == ssa.Value(list) {
+			if ia, isIA := ld.X.(*ssa.IndexAddr); isIA && ia.Index == core.Resolve(lit[k]) && ascendingIndex(ia.Index) && c16same(binding(producer, ia.X), list) {
 				okP = true
 			}
 		}
@@ -857,7 +868,7 @@ func ascendingFromZero(v ssa.Value) bool {
 	return zero && inc
 }
 
-func c16ordered(p *core.Prog, im, producer, workerFn *ssa.Function, list, fParam *ssa.Parameter, binding func(*ssa.Function, ssa.Value) ssa.Value) (bool, string) {
+func c16ordered(p *core.Prog, im, producer, workerFn *ssa.Function, list, fParam ssa.Value, binding func(*ssa.Function, ssa.Value) ssa.Value) (bool, string) {
 	// producer: map update key = range index of list, value = list[index]
 	okP := false
 	core.Instrs(producer, func(ins ssa.Instruction) {
@@ -870,7 +881,7 @@ func c16ordered(p *core.Prog, im, producer, workerFn *ssa.Function, list, fParam
 			return
 		}
 		ia, ok := ld.X.(*ssa.IndexAddr)
-		if ok && ia.Index == mu.Key && ascendingIndex(ia.Index) && binding(producer, ia.X) == ssa.Value(list) {
+		if ok && ia.Index == mu.Key && ascendingIndex(ia.Index) && c16same(binding(producer, ia.X), list) {
 			okP = true
 		}
 	})
@@ -958,4 +969,209 @@ func c16carriesIndex(im *ssa.Function) bool {
 		_ = h
 	}
 	return found
+}
+
+
+// c16isImplCall: a call of PMap to one of its implementations - (f, list, worker) as three arguments, or bundled into one
+// struct argument with a function, a slice and an int field.
+func c16isImplCall(call *ssa.Call) bool {
+	if len(call.Call.Args) == 3 {
+		return true
+	}
+	if len(call.Call.Args) != 1 {
+		return false
+	}
+	_, _, _, ok := c16bundleFields(call.Call.Args[0].Type())
+	return ok
+}
+
+// c16bundleFields: the indices of the function, slice and int fields of a three-role bundle struct.
+func c16bundleFields(t types.Type) (fi, li, wi int, ok bool) {
+	if pt, isP := t.Underlying().(*types.Pointer); isP {
+		t = pt.Elem()
+	}
+	st, isSt := t.Underlying().(*types.Struct)
+	if !isSt {
+		return 0, 0, 0, false
+	}
+	fi, li, wi = -1, -1, -1
+	for i := 0; i < st.NumFields(); i++ {
+		switch u := st.Field(i).Type().Underlying().(type) {
+		case *types.Signature:
+			if fi < 0 {
+				fi = i
+			}
+		case *types.Slice:
+			if li < 0 {
+				li = i
+			}
+		case *types.Basic:
+			if u.Kind() == types.Int && wi < 0 {
+				wi = i
+			}
+		}
+	}
+	return fi, li, wi, fi >= 0 && li >= 0 && wi >= 0
+}
+
+// c16roles: the values that stand for f, list and worker inside an implementation: its three parameters (by type), or the
+// reads of the corresponding fields of its one bundle parameter.
+func c16roles(im *ssa.Function) (f, list, worker ssa.Value, ok bool) {
+	if len(im.Params) == 3 {
+		for _, prm := range im.Params {
+			switch u := prm.Type().Underlying().(type) {
+			case *types.Signature:
+				f = prm
+			case *types.Slice:
+				list = prm
+			case *types.Basic:
+				if u.Kind() == types.Int {
+					worker = prm
+				}
+			}
+		}
+		return f, list, worker, f != nil && list != nil && worker != nil
+	}
+	if len(im.Params) != 1 {
+		return nil, nil, nil, false
+	}
+	fi, li, wi, okB := c16bundleFields(im.Params[0].Type())
+	if !okB {
+		return nil, nil, nil, false
+	}
+	core.Instrs(im, func(ins ssa.Instruction) {
+		v, isV := ins.(ssa.Value)
+		if !isV {
+			return
+		}
+		if k, okK := c16bundleRead(v, im.Params[0]); okK {
+			switch {
+			case k == fi && f == nil:
+				f = v
+			case k == li && list == nil:
+				list = v
+			case k == wi && worker == nil:
+				worker = v
+			}
+		}
+	})
+	return f, list, worker, f != nil && list != nil && worker != nil
+}
+
+// c16bundleRead: v reads field #k of the bundle parameter (directly, or through the cell the parameter was spilled into).
+func c16bundleRead(v ssa.Value, prm *ssa.Parameter) (int, bool) {
+	switch x := v.(type) {
+	case *ssa.Field:
+		if core.Resolve(x.X) == ssa.Value(prm) {
+			return x.Field, true
+		}
+	case *ssa.UnOp:
+		if fa, isFA := x.X.(*ssa.FieldAddr); isFA && x.Op == token.MUL {
+			base := fa.X
+			if al, isAl := base.(*ssa.Alloc); isAl {
+				if st := core.Stores(al); len(st) == 1 && st[0].Val == ssa.Value(prm) {
+					return fa.Field, true
+				}
+			}
+			if core.Resolve(base) == ssa.Value(prm) {
+				return fa.Field, true
+			}
+		}
+	}
+	return 0, false
+}
+
+// c16same: v is the role value, or another read of the same bundle field.
+func c16same(v, role ssa.Value) bool {
+	if v == nil || role == nil {
+		return false
+	}
+	v = core.Resolve(v)
+	if v == role {
+		return true
+	}
+	ri, isRI := role.(ssa.Instruction)
+	if !isRI || len(ri.Parent().Params) != 1 {
+		return false
+	}
+	prm := ri.Parent().Params[0]
+	k1, ok1 := c16bundleRead(role, prm)
+	k2, ok2 := c16bundleRead(v, prm)
+	return ok1 && ok2 && k1 == k2
+}
+
+// c16bundleOK: the bundle handed to an implementation was built in PMap with f and list passed through and a worker field
+// that only ever receives len(list), or FixedPool where 0 < FixedPool < the field's current value.
+func c16bundleOK(pm *ssa.Function, arg ssa.Value) string {
+	ld, ok := core.Unwrap(arg).(*ssa.UnOp)
+	if !ok {
+		return "the bundle handed to the implementation is not a struct built in PMap"
+	}
+	al, ok := ld.X.(*ssa.Alloc)
+	if !ok {
+		return "the bundle handed to the implementation is not a struct built in PMap"
+	}
+	fi, li, wi, okB := c16bundleFields(al.Type())
+	if !okB {
+		return "the bundle does not carry (f, list, worker)"
+	}
+	isLen := func(v ssa.Value) bool {
+		call, ok := core.Resolve(v).(*ssa.Call)
+		return ok && core.IsBuiltin(&call.Call, "len") && call.Call.Args[0] == ssa.Value(pm.Params[2])
+	}
+	isWorkerRead := func(v ssa.Value) bool {
+		u, isU := core.Unwrap(v).(*ssa.UnOp)
+		if !isU {
+			return false
+		}
+		fa, isFA := u.X.(*ssa.FieldAddr)
+		return isFA && fa.X == ssa.Value(al) && fa.Field == wi
+	}
+	nW := 0
+	for _, r := range *al.Referrers() {
+		fa, isFA := r.(*ssa.FieldAddr)
+		if !isFA {
+			continue
+		}
+		for _, st := range core.Stores(fa) {
+			v := core.Resolve(st.Val)
+			switch fa.Field {
+			case fi:
+				if v != ssa.Value(pm.Params[0]) {
+					return "f/list are not passed through unchanged"
+				}
+			case li:
+				if v != ssa.Value(pm.Params[2]) {
+					return "f/list are not passed through unchanged"
+				}
+			case wi:
+				nW++
+				if isLen(v) {
+					continue
+				}
+				okFP := false
+				if core.FieldKey(v) == "PMapOption.FixedPool" {
+					pos, lt := false, false
+					for _, m := range core.EdgeCmps(st.Block()) {
+						if core.FieldKey(m.X) == "PMapOption.FixedPool" {
+							if m.Op == token.GTR && core.IsIntConst(m.Y, 0) {
+								pos = true
+							}
+							if m.Op == token.LSS && (isLen(m.Y) || isWorkerRead(m.Y)) {
+								lt = true
+							}
+						}
+					}
+					okFP = pos && lt
+				}
+				if !okFP {
+					return "the worker count handed to the implementation is not len(list) lowered only when 0 < FixedPool < len(list)"
+				}
+			}
+		}
+	}
+	if nW == 0 {
+		return "the worker count handed to the implementation is never set"
+	}
+	return ""
 }
